@@ -88,3 +88,28 @@ Definition f_compute_old (first last : nat) (s : fst_) : fst_ :=
   | Some k => {| fstep := Some (k + (last - first)); fnet := f_advance (last - first) k (fnet s) |}
   end.
 End History.
+
+(* ---- the mean-field back-end: several species advanced one after the other within a step -------------------
+   Every species has its own tensor network.  Within the step leading to [k] the networks are advanced in list
+   order; the user functions needed for species j (its bath correlations, inside the influence functions) are
+   evaluated after the species before it have been advanced, the field equation after all of them.
+   [fail = Some j]: the user function evaluated after j species have been advanced raises (j = number of species:
+   the field equation).  [rollback = true] is the code as repaired (the networks of the start of the step are
+   put back before the exception leaves), [rollback = false] the earlier behaviour. *)
+Section Species.
+Variable Sp : Type.
+Variable sp_step : Sp -> nat -> Sp.
+
+Fixpoint adv_upto (j : nat) (k : nat) (l : list Sp) : list Sp :=
+  match j, l with
+  | S j', x :: t => sp_step x k :: adv_upto j' k t
+  | _, _ => l
+  end.
+Definition adv_all (k : nat) (l : list Sp) : list Sp := map (fun x => sp_step x k) l.
+
+Definition mf_step (rollback : bool) (fail : option nat) (k : nat) (l : list Sp) : list Sp * bool :=
+  match fail with
+  | None => (adv_upto (length l) k l, true)
+  | Some j => ((if rollback then l else adv_upto j k l), false)
+  end.
+End Species.
